@@ -142,6 +142,11 @@ def ex(n, s, cx):
         if nm == "max" and len(n["inner"]) == 1:
             return str(A.type_max(A.ty(n)))
         raise U("call %s in an expression" % nm)
+    if k == "CXXDefaultArgExpr":
+        d = getattr(cx, "current_defaults", None)
+        if d is None or cx.default_index >= len(d) or d[cx.default_index] is None:
+            raise U("default argument without a known value")
+        return ex(d[cx.default_index], s, cx)
     if k == "UnaryOperator" and n["opcode"] == "!":
         v = ex(n["inner"][0], s, cx)
         if A.ty(n["inner"][0]) != "bool":
@@ -228,11 +233,17 @@ class Gen:
             objv, which = obj_of(me["inner"][0], s)
             if nm in MUTATORS:
                 return self.upd(s, which, "(%s%s %s%s)" % (self.cx.pre, nm, objv, "".join(" " + ex(a, s, self.cx) for a in args)))
-            if nm in METHODS[self.cx.cls] and which == "st" and nm in self.cx.done:
+            if nm in self.cx.done and which == "st":
                 # a translated sibling: (words, effects) -> option (words * effects)
                 n1 = self.cx.fresh()
                 st2, ef2 = "st%d" % n1, "ef%d" % n1
-                call = "%s%s %s%s" % (self.cx.pre, nm, s.st, "".join(" " + ex(a, s, self.cx) for a in args))
+                argv = []
+                for i, a in enumerate(args):
+                    self.cx.current_defaults = self.cx.defaults.get(nm)
+                    self.cx.default_index = i
+                    argv.append(ex(a, s, self.cx))
+                self.cx.current_defaults = None
+                call = "%s%s %s%s" % (self.cx.pre, nm, s.st, "".join(" " + a for a in argv))
                 s2 = S(st2, s.ot, ef2, s.extras)
                 return ("SIB|%s|%s|%s|%s|" % (call, st2, ef2, s.ef)), s2
             if nm in ("allocate", "deallocate", "reallocate"):
@@ -262,6 +273,8 @@ class Gen:
                 raise U("swap of " + a["kind"])
             if nm is None:
                 raise U("indirect call")
+            if nm == "Check" and len(args) == 2:   # GrowingPolicy::Check(capacity, maxCapacity): throws beyond the maximum
+                return "CHK|%s %s|" % (ex(args[0], s, self.cx), ex(args[1], s, self.cx)), s
             pre, s = self.nested_effects(args, s)
             t, s = self.eff(s, nm, self.int_args(args, s))
             return pre + t, s
@@ -413,6 +426,12 @@ class Gen:
             call, st2, ef2, ef0, tail = tail.split("|", 4)
             inner = self.wrap(tail, body)
             return head + "match %s with None => None | Some (%s, efs) => let %s := %s ++ efs in %s end" % (call, st2, ef2, ef0, inner)
+        if "CHK|" in pre:
+            i = pre.index("CHK|")
+            head, tail = pre[:i], pre[i + 4:]
+            args, tail = tail.split("|", 1)
+            inner = self.wrap(tail, body)
+            return head + "match ExcCheck %s with None => None | Some _ => %s end" % (args, inner)
         if "SNC|" in pre:
             i = pre.index("SNC|")
             head, tail = pre[:i], pre[i + 4:]
@@ -464,8 +483,11 @@ def main():
                 f.write("template class amc::vec::SmallVectorBase<int, std::allocator<int>, %s>;\n" % ct)
                 f.write("template class amc::vec::StdVectorBase<int, std::allocator<int>, %s>;\n" % ct)
                 f.write("template class amc::vec::StaticVectorBase<int, %s>;\n" % ct)
+                f.write("template class amc::vec::DynamicVector<int, std::allocator<int>, %s, true>;\n" % ct)
+                f.write("template class amc::vec::DynamicVector<int, std::allocator<int>, %s, false>;\n" % ct)
+                f.write("template class amc::vec::StaticVector<int, %s, amc::vec::ExceptionGrowingPolicy>;\n" % ct)
         asts = {}
-        for cls in METHODS:
+        for cls in list(METHODS) + ["DynamicVector", "StaticVector"]:
             path = os.path.join(tmp, cls + ".json")
             try:
                 A.dump_ast(include, "c++17", src, cls, path)
@@ -479,6 +501,7 @@ def main():
                 ms = class_methods(asts[cls], cls, ct)
                 cx = Ctx(cls)
                 cx.done = set()
+                cx.defaults = {}
                 for name in METHODS[cls]:
                     cands = ms.get(name, [])
                     # move_construct of SmallVectorBase is overloaded: keep the one taking the same class
@@ -493,6 +516,40 @@ def main():
                         defs.append(txt)
                         cx.done.add(name)
                         summary["functions"].setdefault(tag, []).append(PREFIX[cls] + name)
+                    except U as e:
+                        summary["errors"][key] = str(e)
+                # the growing-policy layer on top of the base: adjustCapacity(uintmax_t) of DynamicVector / StaticVector
+                dcls = "StaticVector" if cls == "StaticVectorBase" else "DynamicVector"
+                want = {"SmallVectorBase": "true", "StdVectorBase": "false"}.get(cls)
+                cx.defaults = {}
+                for name, cands in ms.items():
+                    for m in cands[:1]:
+                        cx.defaults[name] = [(p["inner"][-1] if p.get("inner") else None) for p in m["inner"] if p["kind"] == "ParmVarDecl"]
+                key = "%s.%s.adjustCapacity" % (tag, dcls + ("" if want is None else "<" + want + ">"))
+                got = None
+                for o in asts.get(dcls, []):
+                    for spec in A.walk(o):
+                        if spec.get("kind") != "ClassTemplateSpecializationDecl" or spec.get("name") != dcls:
+                            continue
+                        targs = [a for a in spec.get("inner", []) if a.get("kind") == "TemplateArgument"]
+                        tys = [a.get("type", {}).get("qualType") for a in targs]
+                        if ct not in tys:
+                            continue
+                        if want is not None and str(targs[-1].get("value")) not in (("-1", "1", "true") if want == "true" else ("0", "false")):
+                            continue
+                        for m in spec.get("inner", []):
+                            if (m.get("kind") == "CXXMethodDecl" and m.get("name") == "adjustCapacity" and got is None
+                                    and len([p for p in m["inner"] if p["kind"] == "ParmVarDecl"]) == 1
+                                    and any(c.get("kind") == "CompoundStmt" for c in m.get("inner", []))):
+                                got = m
+                if got is None:
+                    summary["errors"][key] = "method not found in the AST"
+                else:
+                    try:
+                        cx.k = 0
+                        txt, two = translate(got, cx)
+                        defs.append(txt)
+                        summary["functions"].setdefault(tag, []).append(PREFIX[cls] + "adjustCapacity")
                     except U as e:
                         summary["errors"][key] = str(e)
             text = ("(* GENERATED by translator/base2coq.py from clang's AST of the amc headers (-std=c++17). Do not edit. *)\n"
